@@ -424,6 +424,12 @@ func (c *Collection) geoSearch(
 // Within/Intersects tests use: the rectangle of the circle's polygon
 // approximation does not contain the whole disc away from the equator, and is
 // wrong when the disc crosses the antimeridian or a pole.
+// SearchRect is the rectangle an index has to use for obj so that every
+// object the geometric tests accept for it falls inside (see searchRect).
+func SearchRect(obj geojson.Object) geometry.Rect {
+	return searchRect(obj)
+}
+
 func searchRect(obj geojson.Object) geometry.Rect {
 	rect := obj.Rect()
 	circle, ok := obj.(*geojson.Circle)
